@@ -8,7 +8,9 @@ configuration block becomes current with `RC` (a `reconfig` step).  Message line
   MS i e1,e2      EffectsStarted        MT i e1,e2      EffectsStopped
   MA i e t1,t2    EffectApplied         MN i e t1,t2    EffectUnapplied
   MC i attr       AttrsValueChanged raised for an overridden attribute (skill level)
+  BS i e mods     warfare-buff modifiers registered for projector (i, e)  (`-` = none)
   MR i attr       public read, prints `v <value>`
+  QB              prints `B item effect mods` (specification-derived buff modifiers of running boosts), then `.`
   QK              prints `K item attr value` for every cached entry of the configuration's items, then `.`
   X               forget everything dynamic (new solar system)
 -/
@@ -40,6 +42,20 @@ def mstepLine (x : MSt) (line : String) : MSt × List String :=
     | some i, some e, some ts => (mdo x (.apply i e ts), []) | _, _, _ => bad
   | ["MN", i, e, ts] => match i.toNat?, e.toInt?, nats? ts with
     | some i, some e, some ts => (mdo x (.unapply i e ts), []) | _, _, _ => bad
+  | ["BS", i, e, ms] =>
+    -- warfare-buff modifiers: `-` or `f,d,x,t,o,a,k,s;...` (8 fields per modifier, `_` for none)
+    let parseM (t : String) : Option Modifier :=
+      match t.splitOn "," with
+      | [f, d, x, ta, o, a, k, sa] => do
+        let f ← f.toNat?; let d ← d.toNat?; let x ← optInt? (if x == "_" then "-" else x); let ta ← ta.toInt?
+        let o ← o.toNat?; let a ← a.toNat?; let k ← optInt? (if k == "_" then "-" else k); let sa ← sa.toInt?
+        pure { filter := f, domain := d, extra := x, tgtAttr := ta, op := o, agg := a, aggKey := k, srcAttr := sa }
+      | _ => none
+    match i.toNat?, e.toInt?, (if ms == "-" then some [] else (ms.splitOn ";").mapM parseM) with
+    | some i, some e, some ms =>
+      -- the model ignores payload that is not a buff modifier of this universe; the real service never builds such
+      if ms.all (bspecOK x.st.u) then (mdo x (.buffset i e ms), []) else (x, ["bad-op ill-formed buff payload"])
+    | _, _, _ => bad
   | ["MC", i, a] => match i.toNat?, a.toInt? with | some i, some a => (mdo x (.changed i a), []) | _, _ => bad
   | ["MR", i, a] => match i.toNat?, a.toInt? with
     | some i, some a =>
@@ -48,6 +64,27 @@ def mstepLine (x : MSt) (line : String) : MSt × List String :=
     | _, _ => bad
   | ["QK"] =>
     (x, (tblOf x.st.u x.m.cfg (tblFun x.m.tbl)).map (fun e => s!"K {e.1.1} {e.1.2} {showRat e.2}") ++ ["."])
+  | ["QB"] =>
+    -- the warfare-buff modifiers the *specification* derives (buff id attributes read from the from-scratch
+    -- table, templates of the universe) for every running boost effect
+    let u := x.st.u
+    let t := evalAll u x.m.cfg specImmune specLimited pen
+    let oi (o : Option Int) : String := match o with | some v => toString v | none => "-"
+    let showM (m : Modifier) : String :=
+      s!"{m.filter},{m.domain},{oi m.extra},{m.tgtAttr},{m.op},{m.agg},{oi m.aggKey},{m.srcAttr}"
+    let ls := x.m.cfg.items.flatMap fun a =>
+      ((running u x.m.dyn a).filter (·.isBuff)).map fun e =>
+        match buffModifiers u (readDep u t) a with
+        | .ok ms =>
+          let l := ((ms.map showM).mergeSort (fun p q => p ≤ q)).eraseDups
+          s!"B {a.id} {e.id} " ++ (if l.isEmpty then "-" else ";".intercalate l)
+        | .error _ => s!"B {a.id} {e.id} err"
+    -- ... and the recorded targets of those boosts against the ships the specification boosts
+    let showIds (l : List Nat) : String := if l.isEmpty then "-" else ",".intercalate ((l.mergeSort (· ≤ ·)).map toString)
+    let ts := x.m.cfg.items.flatMap fun a =>
+      ((running u x.m.dyn a).filter (·.isBuff)).map fun e =>
+        s!"T {a.id} {e.id} {showIds (x.m.dyn.tgts a.id e.id)} {showIds ((boostTargets x.m.cfg a.fit).map (·.id))}"
+    (x, ls ++ ts ++ ["."])
   | _ =>
     -- universe / configuration lines go to the shared parser
     let r := step x.st line
